@@ -191,15 +191,15 @@ Qed.
 (* the proved part of log_independent_of_later_mutation over whole programs: only scalars supplied => the checker
    accepts the model's observation, whatever is overwritten and whenever *)
 Theorem model_meets_spec_scalar : forall k,
-  existsb has_nameless (k_ops k) = false -> forallb op_scalar (k_ops k) = true ->
+  forallb op_scalar (k_ops k) = true ->
   check_case k (run_case k) = [].
 Proof.
-  intros k NN SC. unfold run_case.
+  intros k SC. unfold run_case.
   destruct (negb (mem_ok (k_mem k))); [reflexivity|].
-  destruct (lrun (k_cfg k) (lstate0 (k_mem k) (k_procs k)) (k_ops k)) as [st| |] eqn:E.
+  destruct (lrun (k_cfg k) (lstate0 (k_mem k) (k_procs k)) (k_ops k)) as [st|] eqn:E.
   - destruct (run_sim _ _ _ _ _ (R_init (k_mem k) (k_procs k)) E) as [d [x [O [X RR]]]].
     cbn [lstate0 s_out app] in O. rewrite O.
-    unfold check_case, dump. rewrite app_assoc, (proj1 (single_tag_end _)), (proj2 (single_tag_end _)).
+    unfold check_case, dump. rewrite app_assoc, single_tag_end.
     rewrite <- app_assoc. fold (dump (k_cfg k) st).
     unfold check_run. rewrite X.
     assert (SI : scalar_inv x).
@@ -207,7 +207,6 @@ Proof.
     assert (Q : Forall (fun pe => quiet_em (x_mem x) (snd pe)) (x_exp x)).
     { eapply Forall_impl; [|exact (si_exp _ SI)]. intros pe Hs. right. exact Hs. }
     pose proof (eats_eat _ _ _ (dump_quiet (k_cfg k) st x RR Q) [] []) as EE. rewrite app_nil_r in EE. rewrite EE. reflexivity.
-  - apply run_crash in E. rewrite E in NN. discriminate.
   - reflexivity.
 Qed.
 
@@ -216,5 +215,5 @@ Example ex_scalar_case :
                    [LEmitV 0 0 [ASev 9%Z; ABody BAv (VI64 5%Z); AAttrs HVec [(bs "k", VDbl 0%Z)]];
                     LMut 0 (HZ AKI32 [2%Z]); LCreate 0 0; LApply 0 (ABody BAv (VBool true)); LMut 0 (HZ AKI32 [3%Z]); LEmit 0 0 0;
                     LMut 0 (HZ AKI32 [4%Z])] in
-  existsb has_nameless (k_ops k) = false /\ forallb op_scalar (k_ops k) = true /\ length (run_case k) = 102.
+  forallb op_scalar (k_ops k) = true /\ length (run_case k) = 102.
 Proof. vm_compute. repeat split. Qed.
